@@ -82,7 +82,7 @@ class C29(Prop):
     props_file = "Props/C29.v"
     preamble = ("From Coq Require Import List QArith ZArith.\nImport ListNotations.\n"
                 "From PP Require Import Model.C28 Model.C29.\nOpen Scope Q_scope.\n")
-    n_cases = (240, 3000)
+    n_cases = (160, 2500)
     design_ref = "DESIGN.md §5 C29"
     level_text = (
         "Coq theorems over an executable Q-transcription of split_intersecting_segments_2d "
@@ -92,36 +92,38 @@ class C29(Prop):
         "the first child per point pair).  For ARBITRARY rational segment sets and any tol, "
         "under the decidable guard 'away from the tolerance bands' (tol>0, no zero-length "
         "segment, every executed segments_2d call answers like its exact counterpart, points "
-        "handed to the uniquification equal or >= tol apart): C29_no_exception; "
+        "handed to the uniquification equal or >= tol apart; guard2 adds: the two scalar "
+        "distance tests of the side filter answer exactly): C29_no_exception; "
         "C29_children_inside_parent (both ends of every output edge on the segment it is mapped "
         "to, same tags); C29_covering (every point of every input segment on some output edge "
         "— induction over the chain sorted by parameter — and every point of every output edge "
-        "on its input segment); C29_no_duplicates_partial (no zero-length edge; no two edges "
-        "with the same end points in either orientation, when an intersection was found or the "
-        "input has no geometrically equal segments); C29_noncrossing_partial (edges of one "
-        "parent, and edges of two parents that segments_2d answered with one point, meet only "
-        "in a common end point).  The model is tied to /repo on every run: Coq recomputes the "
-        "pipeline on every generated segment set, checks the guard and compares the children "
-        "before uniquification (geometry, tags, order) and the final edge set (geometry, tags, "
-        "parent) with the implementation's output; the exact-rational oracle checks the full "
-        "property (inside+tags, cover, no duplicates, meet only at shared end points).")
+        "on its input segment); C29_no_duplicates (no zero-length edge, no two edges with the "
+        "same end points in either orientation — unconditional); C29_noncrossing (FULL: any point "
+        "common to two output edges is an end point of both; proved via completeness of the "
+        "bounding-box and side filters, shared split points inside collinear overlaps incl. "
+        "those induced by third segments, and the unchanged-input branch).  The model is tied "
+        "to /repo on every run: Coq recomputes the pipeline on every generated segment set, "
+        "checks guard2 and compares the children before uniquification (geometry, tags, order) "
+        "and the final edge set (geometry, tags, parent) with the implementation's output; the "
+        "exact-rational oracle checks the full property independently.")
     level_note = (
-        "P-core.  NOT proved (oracle + tie only): non-crossing for collinear-overlap pairs and "
-        "for pairs rejected by the bounding-box/side filters (filter completeness), and "
-        "no-duplicates when no intersection point is found and the input contains equal "
-        "segments; behaviour inside the tolerance bands; that integer inputs satisfy the guard "
-        "(evaluated per case instead).  Trusted: Coq kernel + vm_compute; harness "
-        "generator/emitter; floats converted exactly to Q and compared within 1e-9*(1+|x|) in "
-        "Coq; abstractions of the model named under 'trusted' (bounding-box sweep by its result, "
-        "uniquify_point_set by greedy clustering, output point numbering not modelled).  "
-        "Depends on C28's 2-D theorem (seg2d_correct_separated).")
+        "P-full on the model under the guard.  NOT proved: behaviour inside the tolerance bands; "
+        "that integer inputs satisfy the guard (evaluated in Coq per case instead); floating-"
+        "point rounding.  Trusted: Coq kernel + vm_compute; harness generator/emitter; floats "
+        "converted exactly to Q and compared within 1e-9*(1+|x|) in Coq; abstractions of the "
+        "model named under 'trusted' (bounding-box sweep by its result, uniquify_point_set by "
+        "greedy clustering, output point numbering not modelled).  Depends on C28's 2-D theorem "
+        "(seg2d_correct_separated, separated_exact).  C29_no_duplicates_partial / "
+        "C29_noncrossing_partial are kept but superseded by the full theorems.")
     technique = ("Coq proof (convex-combination / sorted-parameter induction over Q on the "
                  "transcribed splitting pipeline) + vm_compute execution correspondence")
     rule = ("sets of 2-8 integer segments in small boxes built from directed streams "
             "(crossings, T-junctions, collinear overlap/containment, shared endpoints, exact "
             "and reversed duplicates, stars through one point, grids, near-vertical fans) "
             "plus uniform random ones, 1-2 tag rows, points shared by index or repeated; a few "
-            "sets contain a zero-length segment (error / degenerate behaviour, tie only); "
+            "sets contain a zero-length segment (error / degenerate behaviour, tie only); about a "
+            "third of the sets are translated far from the origin (up to 4096) and scaled by a power "
+            "of two (1/4 .. 1024), int or float dtype; "
             "non-trivial = at least one segment is split or one child is removed as duplicate")
     trusted = ["tol = 1e-8 taken as the rational 1/10^8; implementation floats converted exactly "
                "to Q and compared with the exact model within 1e-9*(1+|x|) inside Coq",
@@ -130,7 +132,7 @@ class C29(Prop):
                "first-occurrence clustering (equal whenever points are equal or >= tol apart: "
                "the guard, evaluated in Coq on every case); output point numbering not modelled"]
     assumptions = ["segments of non-zero length; input away from the tolerance bands (decidable "
-                   "guard of the theorems, true for integer coordinates in small boxes and "
+                   "guard2 of the theorems, true for integer coordinates in small boxes and "
                    "checked in Coq on every generated case)"]
 
     # ---------------------------------------------------------------- generator
@@ -217,10 +219,27 @@ class C29(Prop):
                 segs[k] = [list(p), list(p)]
             ntag = rng.choice([0, 1, 1, 2])
             tags = [[rng.randint(0, 9) for _ in range(ntag)] for _ in segs]
-            yield {"segs": [[s[0], s[1], t] for s, t in zip(segs, tags)],
-                   "share": rng.random() < 0.5, "float": rng.random() < 0.5}
+            case = {"segs": [[s[0], s[1], t] for s, t in zip(segs, tags)],
+                    "share": rng.random() < 0.5, "float": rng.random() < 0.5}
+            if rng.random() < 0.35:
+                # the same lattice configuration translated far away and scaled by a power of two
+                # (coordinates stay exact in binary64; tol = 1e-8 is absolute, so scales stay
+                # well above it)
+                case["scale"] = rng.choice([0.25, 0.5, 1.0, 2.0, 16.0, 1024.0])
+                case["shift"] = [rng.choice([0, 0, -7, 100, -1000, 4096]), rng.choice([0, 3, -250, 1000])]
+                case["float"] = case["float"] or case["scale"] < 1
+            yield case
 
     # ---------------------------------------------------------------- implementation
+    @staticmethod
+    def _xf(case, p):
+        """lattice point -> actual coordinates"""
+        sc = case.get("scale", 1)
+        sh = case.get("shift", [0, 0])
+        v = [(p[0] + sh[0]) * sc, (p[1] + sh[1]) * sc]
+        return [int(x) if float(x).is_integer() and not case.get("float") else float(x) for x in v] \
+            if sc >= 1 else [float(x) for x in v]
+
     def _arrays(self, case):
         pts, e = [], []
         index = {}
@@ -233,7 +252,7 @@ class C29(Prop):
                 else:
                     index[key] = len(pts)
                     col.append(len(pts))
-                    pts.append(p)
+                    pts.append(self._xf(case, p))
             e.append(col + list(t))
         p = np.array(pts, dtype=float if case["float"] else int).T.reshape(2, -1)
         e = np.array(e, dtype=int).T.reshape(-1, len(case["segs"]))
@@ -277,9 +296,20 @@ class C29(Prop):
         span = max(max(abs(c) for s in segs for p in s[:2] for c in p), 1)
         den = 2 * (2 * span) ** 2
         edges = []
+        sc = F(case.get("scale", 1))
+        sh = case.get("shift", [0, 0])
+
+        def back(pt):       # actual float coordinates -> exact lattice-local rational
+            out = []
+            for x, d in zip(pt, sh):
+                y = F(x) / sc - d
+                fr = y.limit_denominator(den)
+                out.append(fr if abs(fr - y) <= F(1, 10**9) * (1 + abs(F(x) / sc)) else None)
+            return tuple(out)
+
         for a, b, t, par in res["out"]:
-            qa = tuple(snap(x, den) for x in a)
-            qb = tuple(snap(x, den) for x in b)
+            qa = back(a)
+            qb = back(b)
             if None in qa or None in qb:
                 return f"output point {a if None in qa else b} is not an intersection point of the input"
             edges.append((qa, qb, t, par))
@@ -325,17 +355,21 @@ class C29(Prop):
         return None
 
     # ---------------------------------------------------------------- tie
+    def _actual_segs(self, case):
+        return [[self._xf(case, a), self._xf(case, b), t] for a, b, t in case["segs"]]
+
     def coq_case(self, case, res):
-        segs = clist(case["segs"], _seg)
+        segs = clist(self._actual_segs(case), _seg)
         if "err" in res:
             io = f"(IRaised {res['err']})"
         else:
             io = f"(IEdges {clist(res['pre'], _edge)} {clist(res['out'], _edge)})"
         proper = all(tuple(a) != tuple(b) for a, b, _ in case["segs"])
-        return f"{'agree_guarded' if proper else 'agree'} {segs} {io}"
+        return f"{'agree_guarded2' if proper else 'agree'} {segs} {io}"
 
     def coq_diag(self, case, res):
-        return f"(guard tol8 {clist(case['segs'], _seg)}, split tol8 {clist(case['segs'], _seg)})"
+        sg = clist(self._actual_segs(case), _seg)
+        return f"(guard2 tol8 {sg}, split tol8 {sg})"
 
     def nontrivial(self, case, res):
         return "out" in res and (len(res["pre"]) != len(case["segs"]) or len(res["out"]) != len(res["pre"]))
